@@ -1,29 +1,909 @@
 package main
 
 // Replay of counterexamples against the real code (DESIGN.md 3.10).
+//
+// For a refuted postcondition the solver's model is turned into a Go test that
+// is injected into the function's package with `go test -overlay` (nothing is
+// written into /repo). The test builds the model's inputs, calls the real
+// function and prints what it returned (and the post-state of pointer
+// arguments). The violation counts as reproduced when the real execution
+// produces exactly the outputs the model predicted — i.e. the refuting
+// execution the solver found is a real execution of the code.
 
 import (
 	"fmt"
-	"strings"
+	"go/types"
 	"os"
 	"os/exec"
 	"path/filepath"
+	"sort"
+	"strconv"
+	"strings"
 	"time"
+
+	"golang.org/x/tools/go/ssa"
 )
 
 type BoundedResult struct {
-	Name     string  `json:"name"`
-	Bound    string  `json:"bound"`
-	OK       bool    `json:"ok"`
-	Cases    int     `json:"cases"`
-	Seconds  float64 `json:"seconds"`
-	Replay   string  `json:"replay,omitempty"`
-	Label    string  `json:"label"`
-	Skipped  bool    `json:"skipped,omitempty"`
+	Name    string  `json:"name"`
+	Bound   string  `json:"bound"`
+	OK      bool    `json:"ok"`
+	Cases   int     `json:"cases"`
+	Seconds float64 `json:"seconds"`
+	Replay  string  `json:"replay,omitempty"`
+	Label   string  `json:"label"`
+	Skipped bool    `json:"skipped,omitempty"`
 }
 
-func tryReplay(prog *Program, repo, verif, dir string, oc *oblOutcome) (string, bool) {
+// MNode describes one value of the model: a tree following the Go type.
+type MNode struct {
+	Path  string
+	T     types.Type
+	Kind  string // int bool str struct ptr slice array iface map func opaque
+	Term  string // leaf term (int/bool/str identity/ref/handle) or "" for pure aggregates
+	Aux   map[string]string // auxiliary terms: slen, base, off, len, cap, maplen
+	Kids  []*MNode
+	Names []string
+	Val   string
+	AuxV  map[string]string
+}
+
+type ReplaySpec struct {
+	Fn      *ssa.Function
+	Inputs  []*MNode // one per parameter
+	Outputs []*MNode // results (r0..) and post-state pointees (post:<param>)
+	StrLits map[string]string // literal const name -> text
+	Safety  bool
+}
+
+const replayMaxElems = 4
+
+// genNode builds the model tree for a value of type t denoted by term in state st.
+func (x *Exec) genNode(st *State, t types.Type, term, path string, depth int) *MNode {
+	n := &MNode{Path: path, T: t, Term: term, Aux: map[string]string{}}
+	switch u := t.Underlying().(type) {
+	case *types.Basic:
+		switch {
+		case u.Info()&types.IsInteger != 0:
+			n.Kind = "int"
+		case u.Info()&types.IsBoolean != 0:
+			n.Kind = "bool"
+		case u.Info()&types.IsString != 0:
+			n.Kind = "str"
+			if !x.s.strSMT {
+				n.Aux["slen"] = "(slen " + term + ")"
+			}
+		default:
+			n.Kind = "opaque"
+		}
+	case *types.Struct:
+		n.Kind = "struct"
+		n.Term = ""
+		for i := 0; i < u.NumFields(); i++ {
+			f := u.Field(i)
+			n.Names = append(n.Names, f.Name())
+			n.Kids = append(n.Kids, x.genNode(st, f.Type(), "("+x.s.accessor(t, i)+" "+term+")", path+"."+f.Name(), depth))
+		}
+	case *types.Pointer:
+		n.Kind = "ptr"
+		if depth < 3 {
+			h := x.heapGet(st, heapKeyObj(u.Elem()), u.Elem())
+			n.Kids = []*MNode{x.genNode(st, u.Elem(), "(select "+h+" "+term+")", path+".*", depth+1)}
+		}
+	case *types.Slice:
+		n.Kind = "slice"
+		n.Term = ""
+		n.Aux["base"] = "(s_base " + term + ")"
+		n.Aux["len"] = "(s_len " + term + ")"
+		n.Aux["cap"] = "(s_cap " + term + ")"
+		if depth < 3 {
+			h := x.heapGet(st, heapKeySlice(u.Elem()), u.Elem())
+			for i := 0; i < replayMaxElems; i++ {
+				et := fmt.Sprintf("(select (select %s (s_base %s)) (+ (s_off %s) %d))", h, term, term, i)
+				n.Kids = append(n.Kids, x.genNode(st, u.Elem(), et, fmt.Sprintf("%s[%d]", path, i), depth+1))
+			}
+		}
+	case *types.Array:
+		n.Kind = "array"
+		n.Term = ""
+		if u.Len() <= 32 {
+			for i := int64(0); i < u.Len(); i++ {
+				n.Kids = append(n.Kids, x.genNode(st, u.Elem(), fmt.Sprintf("(select %s %d)", term, i), fmt.Sprintf("%s[%d]", path, i), depth))
+			}
+		}
+	case *types.Interface:
+		n.Kind = "iface"
+	case *types.Map:
+		n.Kind = "map"
+		n.Aux["maplen"] = x.mapLen(st, V{T: t, S: term})
+	case *types.Signature:
+		n.Kind = "func"
+	default:
+		n.Kind = "opaque"
+	}
+	return n
+}
+
+func (n *MNode) flatten(out *[]string, nodes *[]func(string)) {
+	if n.Term != "" {
+		*out = append(*out, n.Term)
+		*nodes = append(*nodes, func(v string) { n.Val = v })
+	}
+	keys := sortedKeys(n.Aux)
+	for _, k := range keys {
+		k := k
+		*out = append(*out, n.Aux[k])
+		*nodes = append(*nodes, func(v string) {
+			if n.AuxV == nil {
+				n.AuxV = map[string]string{}
+			}
+			n.AuxV[k] = v
+		})
+	}
+	for _, c := range n.Kids {
+		c.flatten(out, nodes)
+	}
+}
+
+// buildReplaySpec is called when a postcondition obligation is created.
+func (x *Exec) buildReplaySpec(fr *Frame, results []V, out *State) *ReplaySpec {
+	if fr == nil || fr.fn == nil || fr.fn.Parent() != nil || x.s.bv {
+		return nil
+	}
+	rs := &ReplaySpec{Fn: fr.fn, StrLits: map[string]string{}}
+	for i, p := range fr.fn.Params {
+		v := fr.params[i]
+		if v.S == "" {
+			return nil
+		}
+		rs.Inputs = append(rs.Inputs, x.genNode(fr.entry, p.Type(), v.S, p.Name(), 0))
+	}
+	for i, r := range results {
+		if r.S == "" {
+			continue
+		}
+		rs.Outputs = append(rs.Outputs, x.genNode(out, r.T, r.S, fmt.Sprintf("r%d", i), 0))
+	}
+	for i, p := range fr.fn.Params {
+		if pt, ok := p.Type().Underlying().(*types.Pointer); ok {
+			h := x.heapGet(out, heapKeyObj(pt.Elem()), pt.Elem())
+			rs.Outputs = append(rs.Outputs, x.genNode(out, pt.Elem(), "(select "+h+" "+fr.params[i].S+")", "post:"+p.Name()+".*", 1))
+		}
+	}
+	return rs
+}
+
+// replay query ------------------------------------------------------------------
+
+func (rs *ReplaySpec) terms(s *Script) ([]string, []func(string)) {
+	var terms []string
+	var setters []func(string)
+	for _, n := range rs.Inputs {
+		n.flatten(&terms, &setters)
+	}
+	for _, n := range rs.Outputs {
+		n.flatten(&terms, &setters)
+	}
+	if !s.strSMT {
+		names := []string{"str_empty"}
+		rs.StrLits["str_empty"] = ""
+		for _, lit := range s.strOrder {
+			names = append(names, s.strLits[lit])
+			rs.StrLits[s.strLits[lit]] = lit
+		}
+		for _, nm := range names {
+			nm := nm
+			terms = append(terms, nm)
+			setters = append(setters, func(v string) { rs.StrLits["val:"+v] = rs.StrLits[nm] })
+		}
+	}
+	return terms, setters
+}
+
+func (rs *ReplaySpec) smallBounds() []string {
+	var out []string
+	var walk func(n *MNode)
+	walk = func(n *MNode) {
+		if n.Kind == "slice" {
+			out = append(out, fmt.Sprintf("(<= %s %d)", n.Aux["len"], replayMaxElems), fmt.Sprintf("(<= %s 16)", n.Aux["cap"]))
+		}
+		if n.Kind == "str" && n.Aux["slen"] != "" {
+			out = append(out, fmt.Sprintf("(<= %s 12)", n.Aux["slen"]))
+		}
+		if n.Kind == "map" {
+			out = append(out, fmt.Sprintf("(= %s 0)", n.Aux["maplen"]))
+		}
+		for _, c := range n.Kids {
+			walk(c)
+		}
+	}
+	for _, n := range rs.Inputs {
+		walk(n)
+	}
+	return out
+}
+
+// sexpr parsing ------------------------------------------------------------------
+
+type sx struct {
+	atom string
+	list []*sx
+}
+
+func parseSx(s string) []*sx {
+	var stack [][]*sx
+	cur := []*sx{}
+	i := 0
+	for i < len(s) {
+		c := s[i]
+		switch {
+		case c == '(':
+			stack = append(stack, cur)
+			cur = []*sx{}
+			i++
+		case c == ')':
+			node := &sx{list: cur}
+			if len(stack) == 0 {
+				return cur
+			}
+			cur = stack[len(stack)-1]
+			stack = stack[:len(stack)-1]
+			cur = append(cur, node)
+			i++
+		case c == ' ' || c == '\n' || c == '\t' || c == '\r':
+			i++
+		case c == '"':
+			j := i + 1
+			for j < len(s) {
+				if s[j] == '"' {
+					if j+1 < len(s) && s[j+1] == '"' {
+						j += 2
+						continue
+					}
+					break
+				}
+				j++
+			}
+			cur = append(cur, &sx{atom: s[i : j+1]})
+			i = j + 1
+		case c == '|':
+			j := strings.IndexByte(s[i+1:], '|')
+			cur = append(cur, &sx{atom: s[i : i+j+2]})
+			i += j + 2
+		default:
+			j := i
+			for j < len(s) && !strings.ContainsRune("() \n\t\r", rune(s[j])) {
+				j++
+			}
+			cur = append(cur, &sx{atom: s[i:j]})
+			i = j
+		}
+	}
+	return cur
+}
+
+func (n *sx) String() string {
+	if n.list == nil {
+		return n.atom
+	}
+	var ps []string
+	for _, c := range n.list {
+		ps = append(ps, c.String())
+	}
+	return "(" + strings.Join(ps, " ") + ")"
+}
+
+// intOf evaluates a model integer value: 5, (- 5).
+func intOf(n *sx) (string, bool) {
+	if n.list == nil {
+		if _, err := strconv.ParseInt(n.atom, 10, 64); err == nil || isDigits(n.atom) {
+			return n.atom, true
+		}
+		return "", false
+	}
+	if len(n.list) == 2 && n.list[0].atom == "-" {
+		if v, ok := intOf(n.list[1]); ok {
+			return "-" + v, true
+		}
+	}
 	return "", false
+}
+
+func isDigits(s string) bool {
+	if s == "" {
+		return false
+	}
+	for _, c := range s {
+		if c < '0' || c > '9' {
+			return false
+		}
+	}
+	return true
+}
+
+// Go source generation --------------------------------------------------------------
+
+type goGen struct {
+	pkg     *types.Package
+	imports map[string]string // path -> alias
+	decls   []string
+	ptrVars map[string]string
+	rs      *ReplaySpec
+	fail    string
+	nvar    int
+	strSeen map[string]string
+}
+
+func (g *goGen) qual(p *types.Package) string {
+	if p == g.pkg {
+		return ""
+	}
+	if a, ok := g.imports[p.Path()]; ok {
+		return a
+	}
+	a := fmt.Sprintf("wkvp%d", len(g.imports))
+	g.imports[p.Path()] = a
+	return a
+}
+
+func (g *goGen) typeStr(t types.Type) string { return types.TypeString(t, g.qual) }
+
+func (g *goGen) usable(t types.Type) bool {
+	// types with unexported names from other packages cannot be written down
+	ok := true
+	var walk func(t types.Type, d int)
+	walk = func(t types.Type, d int) {
+		if d > 6 {
+			return
+		}
+		switch u := t.(type) {
+		case *types.Named:
+			if u.Obj().Pkg() != nil && u.Obj().Pkg() != g.pkg && !u.Obj().Exported() {
+				ok = false
+			}
+		case *types.Pointer:
+			walk(u.Elem(), d+1)
+		case *types.Slice:
+			walk(u.Elem(), d+1)
+		case *types.Array:
+			walk(u.Elem(), d+1)
+		case *types.Map:
+			walk(u.Key(), d+1)
+			walk(u.Elem(), d+1)
+		}
+	}
+	walk(t, 0)
+	return ok
+}
+
+func (g *goGen) strValue(n *MNode) string {
+	id := n.Val
+	if lit, ok := g.rs.StrLits["val:"+id]; ok {
+		return lit
+	}
+	if strings.HasPrefix(id, "\"") { // SMT string literal
+		return strings.ReplaceAll(strings.Trim(id, "\""), "\"\"", "\"")
+	}
+	if s, ok := g.strSeen[id]; ok {
+		return s
+	}
+	l := 4
+	if v, err := strconv.Atoi(n.AuxV["slen"]); err == nil && v >= 0 && v <= 64 {
+		l = v
+	}
+	base := fmt.Sprintf("%c%d", 'a'+len(g.strSeen)%26, len(g.strSeen))
+	s := base
+	for len(s) < l {
+		s += "x"
+	}
+	if len(s) > l {
+		s = s[:l]
+	}
+	g.strSeen[id] = s
+	return s
+}
+
+// expr builds a Go expression for the node's model value.
+func (g *goGen) expr(n *MNode) string {
+	if g.fail != "" {
+		return "nil"
+	}
+	ts := g.typeStr(n.T)
+	switch n.Kind {
+	case "int":
+		if n.Val == "" {
+			return ts + "(0)"
+		}
+		return ts + "(" + n.Val + ")"
+	case "bool":
+		if _, isNamed := n.T.(*types.Named); isNamed {
+			return ts + "(" + n.Val + ")"
+		}
+		return n.Val
+	case "str":
+		return ts + "(" + strconv.Quote(g.strValue(n)) + ")"
+	case "struct":
+		st := n.T.Underlying().(*types.Struct)
+		var fs []string
+		foreign := false
+		if nt, ok := n.T.(*types.Named); ok && nt.Obj().Pkg() != nil && nt.Obj().Pkg() != g.pkg {
+			foreign = true
+		}
+		for i, k := range n.Kids {
+			f := st.Field(i)
+			if foreign && !f.Exported() {
+				continue
+			}
+			if f.Name() == "_" {
+				continue
+			}
+			if !g.usable(f.Type()) {
+				continue
+			}
+			fs = append(fs, f.Name()+": "+g.expr(k))
+		}
+		return ts + "{" + strings.Join(fs, ", ") + "}"
+	case "ptr":
+		if n.Val == "0" || n.Val == "" {
+			return "nil"
+		}
+		if len(n.Kids) == 0 {
+			g.fail = "pointer chain too deep at " + n.Path
+			return "nil"
+		}
+		key := ts + ":" + n.Val
+		if v, ok := g.ptrVars[key]; ok {
+			return v
+		}
+		g.nvar++
+		name := fmt.Sprintf("wkvPtr%d", g.nvar)
+		g.ptrVars[key] = name
+		elem := g.expr(n.Kids[0])
+		g.decls = append(g.decls, fmt.Sprintf("%s := new(%s)\n\t*%s = %s", name, g.typeStr(n.T.Underlying().(*types.Pointer).Elem()), name, elem))
+		return name
+	case "slice":
+		if n.AuxV["base"] == "0" {
+			return "nil"
+		}
+		l, err := strconv.Atoi(n.AuxV["len"])
+		if err != nil || l > replayMaxElems {
+			g.fail = fmt.Sprintf("model slice %s has length %s (replay supports up to %d elements)", n.Path, n.AuxV["len"], replayMaxElems)
+			return "nil"
+		}
+		var es []string
+		for i := 0; i < l && i < len(n.Kids); i++ {
+			es = append(es, g.expr(n.Kids[i]))
+		}
+		c, err := strconv.Atoi(n.AuxV["cap"])
+		if err == nil && c > l && c <= 64 {
+			g.nvar++
+			name := fmt.Sprintf("wkvSl%d", g.nvar)
+			g.decls = append(g.decls, fmt.Sprintf("%s := make(%s, %d, %d)\n\tcopy(%s, %s{%s})", name, ts, l, c, name, ts, strings.Join(es, ", ")))
+			return name
+		}
+		return ts + "{" + strings.Join(es, ", ") + "}"
+	case "array":
+		var es []string
+		for _, k := range n.Kids {
+			es = append(es, g.expr(k))
+		}
+		return ts + "{" + strings.Join(es, ", ") + "}"
+	case "iface", "func":
+		if n.Val == "0" || n.Val == "" {
+			return "nil"
+		}
+		g.fail = "model needs a non-nil " + n.Kind + " value at " + n.Path + " (not constructible)"
+		return "nil"
+	case "map":
+		if n.Val == "0" {
+			return "nil"
+		}
+		if n.AuxV["maplen"] == "0" {
+			return ts + "{}"
+		}
+		g.fail = "model needs a non-empty map at " + n.Path + " (not constructible)"
+		return "nil"
+	}
+	g.fail = "unsupported value kind at " + n.Path
+	return "nil"
+}
+
+// predicted collects comparable output leaves: path -> expected printed value.
+func (g *goGen) predicted(n *MNode, out map[string]string) {
+	switch n.Kind {
+	case "int":
+		out[n.Path] = n.Val
+	case "bool":
+		out[n.Path] = n.Val
+	case "str":
+		if lit, ok := g.rs.StrLits["val:"+n.Val]; ok {
+			out[n.Path] = strconv.Quote(lit)
+		} else if s, ok := g.strSeen[n.Val]; ok {
+			out[n.Path] = strconv.Quote(s)
+		}
+	case "ptr", "iface", "func", "map":
+		if n.Val == "0" {
+			out[n.Path] = "nil"
+		} else if n.Val != "" {
+			out[n.Path] = "non-nil"
+		}
+		if n.Kind == "ptr" && n.Val != "0" {
+			for _, k := range n.Kids {
+				g.predicted(k, out)
+			}
+		}
+	case "struct", "array":
+		for _, k := range n.Kids {
+			g.predicted(k, out)
+		}
+	case "slice":
+		out[n.Path+".#len"] = n.AuxV["len"]
+		if l, err := strconv.Atoi(n.AuxV["len"]); err == nil {
+			for i := 0; i < l && i < len(n.Kids); i++ {
+				g.predicted(n.Kids[i], out)
+			}
+		}
+	}
+}
+
+// pinNode turns observed values of the real run into equalities over the
+// model terms of a node tree.
+func pinNode(n *MNode, actual map[string]string, rs *ReplaySpec) []string {
+	var out []string
+	num := func(v string) string {
+		if strings.HasPrefix(v, "-") {
+			return "(- " + v[1:] + ")"
+		}
+		return v
+	}
+	switch n.Kind {
+	case "int":
+		if v, ok := actual[n.Path]; ok && n.Term != "" {
+			out = append(out, "(= "+n.Term+" "+num(v)+")")
+		}
+	case "bool":
+		if v, ok := actual[n.Path]; ok && n.Term != "" {
+			out = append(out, "(= "+n.Term+" "+v+")")
+		}
+	case "str":
+		if v, ok := actual[n.Path]; ok && n.Term != "" {
+			if s, err := strconv.Unquote(v); err == nil {
+				if n.Aux["slen"] != "" {
+					out = append(out, fmt.Sprintf("(= %s %d)", n.Aux["slen"], len(s)))
+				}
+				for name, text := range rs.StrLits {
+					if !strings.HasPrefix(name, "val:") && text == s {
+						out = append(out, "(= "+n.Term+" "+name+")")
+						break
+					}
+				}
+			}
+		}
+	case "ptr", "iface", "func", "map":
+		if v, ok := actual[n.Path]; ok && n.Term != "" {
+			if v == "nil" {
+				out = append(out, "(= "+n.Term+" 0)")
+			} else {
+				out = append(out, "(not (= "+n.Term+" 0))")
+				for _, k := range n.Kids {
+					out = append(out, pinNode(k, actual, rs)...)
+				}
+			}
+		}
+	case "struct", "array":
+		for _, k := range n.Kids {
+			out = append(out, pinNode(k, actual, rs)...)
+		}
+	case "slice":
+		if v, ok := actual[n.Path+".#len"]; ok {
+			out = append(out, "(= "+n.Aux["len"]+" "+v+")")
+			if l, err := strconv.Atoi(v); err == nil {
+				for i := 0; i < l && i < len(n.Kids); i++ {
+					out = append(out, pinNode(n.Kids[i], actual, rs)...)
+				}
+			}
+		}
+	}
+	return out
+}
+
+const dumpHelper = `
+var wkvTag = "WKV-OUT"
+
+func wkvDump(path string, v reflect.Value, depth int) {
+	if depth > 6 {
+		return
+	}
+	switch v.Kind() {
+	case reflect.Int, reflect.Int8, reflect.Int16, reflect.Int32, reflect.Int64:
+		fmt.Printf(wkvTag+" %s=%d\n", path, v.Int())
+	case reflect.Uint, reflect.Uint8, reflect.Uint16, reflect.Uint32, reflect.Uint64, reflect.Uintptr:
+		fmt.Printf(wkvTag+" %s=%d\n", path, v.Uint())
+	case reflect.Bool:
+		fmt.Printf(wkvTag+" %s=%t\n", path, v.Bool())
+	case reflect.String:
+		fmt.Printf(wkvTag+" %s=%q\n", path, v.String())
+	case reflect.Struct:
+		for i := 0; i < v.NumField(); i++ {
+			wkvDump(path+"."+v.Type().Field(i).Name, v.Field(i), depth+1)
+		}
+	case reflect.Ptr:
+		if v.IsNil() {
+			fmt.Printf(wkvTag+" %s=nil\n", path)
+		} else {
+			fmt.Printf(wkvTag+" %s=non-nil\n", path)
+			wkvDump(path+".*", v.Elem(), depth+1)
+		}
+	case reflect.Interface, reflect.Func, reflect.Map:
+		if v.IsNil() {
+			fmt.Printf(wkvTag+" %s=nil\n", path)
+		} else {
+			fmt.Printf(wkvTag+" %s=non-nil\n", path)
+		}
+	case reflect.Slice:
+		fmt.Printf(wkvTag+" %s.#len=%d\n", path, v.Len())
+		for i := 0; i < v.Len() && i < 4; i++ {
+			wkvDump(fmt.Sprintf("%s[%d]", path, i), v.Index(i), depth+1)
+		}
+	case reflect.Array:
+		for i := 0; i < v.Len() && i < 32; i++ {
+			wkvDump(fmt.Sprintf("%s[%d]", path, i), v.Index(i), depth+1)
+		}
+	}
+}
+`
+
+// tryReplay generates and runs the replay test for a refuted obligation.
+// Returns the replay file path and whether the violation was reproduced.
+func tryReplay(prog *Program, repo, verif, dir string, oc *oblOutcome) (string, bool) {
+	rs := oc.Obl.Replay
+	if rs == nil || rs.Fn == nil {
+		return "", false
+	}
+	fn := rs.Fn
+	pkgT := prog.pkgOfFunc(fn)
+	pk := prog.all[pkgT.Path()]
+	if pk == nil || len(pk.GoFiles) == 0 {
+		return "", false
+	}
+	pkgDir, err := filepath.Rel(repo, filepath.Dir(pk.GoFiles[0]))
+	if err != nil {
+		return "", false
+	}
+	// model query: prefer small values
+	terms, setters := rs.terms(oc.Script)
+	base := buildQuery(oc.Script, oc.Obl, false)
+	base = strings.TrimSuffix(strings.TrimSpace(base), "(check-sat)")
+	getv := "(get-value (" + strings.Join(terms, "\n ") + "))\n"
+	var modelOut string
+	for attempt := 0; attempt < 2; attempt++ {
+		q := base
+		if attempt == 0 {
+			for _, b := range rs.smallBounds() {
+				q += "(assert " + b + ")\n"
+			}
+		}
+		q += "(check-sat)\n" + getv
+		file := filepath.Join(dir, sanitize(oc.Obl.Name)+fmt.Sprintf(".model%d.smt2", attempt))
+		os.MkdirAll(dir, 0o755)
+		os.WriteFile(file, []byte(q), 0o644)
+		st, out, _ := runSolver(solvers[0], 20, 0, file)
+		if st == "sat" {
+			modelOut = out
+			break
+		}
+	}
+	if modelOut == "" {
+		return "", false
+	}
+	body := strings.TrimSpace(strings.TrimPrefix(strings.TrimSpace(modelOut), "sat"))
+	parsed := parseSx(body)
+	if len(parsed) != 1 || len(parsed[0].list) != len(terms) {
+		return "", false
+	}
+	for i, pair := range parsed[0].list {
+		if len(pair.list) != 2 {
+			return "", false
+		}
+		val := pair.list[1]
+		if v, ok := intOf(val); ok {
+			setters[i](v)
+		} else {
+			setters[i](val.String())
+		}
+	}
+	g := &goGen{pkg: pkgT, imports: map[string]string{}, ptrVars: map[string]string{}, rs: rs, strSeen: map[string]string{}}
+	var args []string
+	for _, in := range rs.Inputs {
+		if !g.usable(in.T) {
+			g.fail = "parameter type " + in.T.String() + " cannot be named from a test"
+		}
+		args = append(args, g.expr(in))
+	}
+	note := func(text string) string {
+		p := filepath.Join(dir, sanitize(oc.Obl.Name)+".txt")
+		f, err := os.OpenFile(p, os.O_APPEND|os.O_WRONLY, 0o644)
+		if err == nil {
+			fmt.Fprintf(f, "\n--- replay ---\n%s\n", text)
+			f.Close()
+		}
+		return p
+	}
+	if g.fail != "" {
+		note("replay not possible: " + g.fail)
+		return "", false
+	}
+	pred := map[string]string{}
+	for _, o := range rs.Outputs {
+		g.predicted(o, pred)
+	}
+	// call expression
+	var call string
+	nres := fn.Signature.Results().Len()
+	if fn.Signature.Recv() != nil {
+		call = "(" + args[0] + ")." + fn.Name() + "(" + strings.Join(args[1:], ", ") + ")"
+	} else {
+		call = fn.Name() + "(" + strings.Join(args, ", ") + ")"
+	}
+	var b strings.Builder
+	testName := "TestWkvReplay"
+	fmt.Fprintf(&b, "// wkv replay of obligation %s\n// package dir: %s\n// run: go test -overlay <ov.json> -vet=off -count=1 -run ^%s$ ./%s\n", oc.Obl.Name, pkgDir, testName, pkgDir)
+	fmt.Fprintf(&b, "package %s\n\nimport (\n\t\"fmt\"\n\t\"reflect\"\n\t\"testing\"\n", pkgT.Name())
+	// imports are known only after expressions were generated
+	var ips []string
+	for p := range g.imports {
+		ips = append(ips, p)
+	}
+	sort.Strings(ips)
+	for _, p := range ips {
+		fmt.Fprintf(&b, "\t%s %q\n", g.imports[p], p)
+	}
+	b.WriteString(")\n")
+	b.WriteString(dumpHelper)
+	fmt.Fprintf(&b, "\nfunc %s(t *testing.T) {\n\tdefer func() {\n\t\tif r := recover(); r != nil {\n\t\t\tfmt.Printf(\"WKV-PANIC %%v\\n\", r)\n\t\t}\n\t}()\n", testName)
+	for _, d := range g.decls {
+		fmt.Fprintf(&b, "\t%s\n", d)
+	}
+	// keep pointer arguments for post-state dumps
+	for i, in := range rs.Inputs {
+		fmt.Fprintf(&b, "\twkvArg%d := %s\n\t_ = wkvArg%d\n", i, args[i], i)
+		fmt.Fprintf(&b, "\twkvTag = \"WKV-IN\"\n\twkvDump(%q, reflect.ValueOf(&wkvArg%d).Elem(), 0)\n\twkvTag = \"WKV-OUT\"\n", in.Path, i)
+	}
+	var argNames []string
+	for i := range rs.Inputs {
+		argNames = append(argNames, fmt.Sprintf("wkvArg%d", i))
+	}
+	if fn.Signature.Recv() != nil {
+		call = "wkvArg0." + fn.Name() + "(" + strings.Join(argNames[1:], ", ") + ")"
+	} else {
+		call = fn.Name() + "(" + strings.Join(argNames, ", ") + ")"
+	}
+	if fn.Signature.Variadic() && len(argNames) > 0 {
+		call = strings.TrimSuffix(call, ")") + "...)"
+	}
+	if nres > 0 {
+		var rn []string
+		for i := 0; i < nres; i++ {
+			rn = append(rn, fmt.Sprintf("r%d", i))
+		}
+		fmt.Fprintf(&b, "\t%s := %s\n", strings.Join(rn, ", "), call)
+		for i := 0; i < nres; i++ {
+			fmt.Fprintf(&b, "\twkvDump(\"r%d\", reflect.ValueOf(&r%d).Elem(), 0)\n", i, i)
+		}
+	} else {
+		fmt.Fprintf(&b, "\t%s\n", call)
+	}
+	for i, p := range fn.Params {
+		if _, ok := p.Type().Underlying().(*types.Pointer); ok {
+			fmt.Fprintf(&b, "\tif wkvArg%d != nil {\n\t\twkvDump(\"post:%s.*\", reflect.ValueOf(wkvArg%d).Elem(), 1)\n\t}\n", i, p.Name(), i)
+		}
+	}
+	b.WriteString("\tfmt.Println(\"WKV-DONE\")\n}\n")
+	src := filepath.Join(dir, sanitize(oc.Obl.Name)+".go")
+	os.WriteFile(src, []byte(b.String()), 0o644)
+	ok, _, log := runOverlayTest(repo, verif, pkgDir, src, testName, 60)
+	_ = ok
+	actual := map[string]string{}
+	actualIn := map[string]string{}
+	panicked := ""
+	done := false
+	for _, l := range splitLines(log) {
+		l = strings.TrimSpace(l)
+		if strings.HasPrefix(l, "WKV-IN ") {
+			kv := strings.SplitN(strings.TrimPrefix(l, "WKV-IN "), "=", 2)
+			if len(kv) == 2 {
+				actualIn[kv[0]] = kv[1]
+			}
+		}
+		if strings.HasPrefix(l, "WKV-OUT ") {
+			kv := strings.SplitN(strings.TrimPrefix(l, "WKV-OUT "), "=", 2)
+			if len(kv) == 2 {
+				actual[kv[0]] = kv[1]
+			}
+		}
+		if strings.HasPrefix(l, "WKV-PANIC") {
+			panicked = l
+		}
+		if l == "WKV-DONE" {
+			done = true
+		}
+	}
+	var rep strings.Builder
+	fmt.Fprintf(&rep, "replay test: %s\ncall: %s\n", src, call)
+	for i, in := range rs.Inputs {
+		fmt.Fprintf(&rep, "  %s = %s\n", in.Path, args[i])
+	}
+	reproduced := false
+	if rs.Safety {
+		reproduced = panicked != ""
+		fmt.Fprintf(&rep, "expected: panic; observed: %q\n", panicked)
+	} else if panicked != "" || !done {
+		fmt.Fprintf(&rep, "the real function did not return normally on the model's input (%s)\n%s\n", panicked, tailLines(log, 15))
+	} else {
+		matched, compared := 0, 0
+		var diffs []string
+		for _, k := range sortedKeys(pred) {
+			a, ok := actual[k]
+			if !ok {
+				continue
+			}
+			compared++
+			if a == pred[k] {
+				matched++
+			} else {
+				diffs = append(diffs, fmt.Sprintf("  %s: model predicts %s, real code gives %s", k, pred[k], a))
+			}
+		}
+		fmt.Fprintf(&rep, "compared %d output values of the real execution with the model's refuting execution: %d equal\n", compared, matched)
+		for _, d := range diffs {
+			rep.WriteString(d + "\n")
+		}
+		reproduced = compared > 0 && matched == compared
+		if !reproduced && compared > 0 {
+			// The model may differ from the real run in values the contracts leave open
+			// (results of modularly treated callees). Decide by the solver: is the real run
+			// (inputs as constructed, outputs as observed) itself an execution of the encoded
+			// function that violates the clause?
+			var pins []string
+			for _, in := range rs.Inputs {
+				pins = append(pins, pinNode(in, actualIn, rs)...)
+			}
+			for _, o := range rs.Outputs {
+				pins = append(pins, pinNode(o, actual, rs)...)
+			}
+			q := base
+			for _, p := range pins {
+				q += "(assert " + p + ")\n"
+			}
+			q += "(check-sat)\n"
+			file := filepath.Join(dir, sanitize(oc.Obl.Name)+".pinned.smt2")
+			os.WriteFile(file, []byte(q), 0o644)
+			st, _, _ := runSolver(solvers[0], 20, 0, file)
+			fmt.Fprintf(&rep, "pinned check (%d input/output values of the real run asserted; clause negated): %s\n", len(pins), st)
+			if st == "sat" {
+				reproduced = true
+				rep.WriteString("the real run is itself a refuting execution: the observed outputs violate the clause\n")
+			}
+		}
+	}
+	if reproduced {
+		rep.WriteString("REPRODUCED: the real code, run on the model's input, behaves exactly as in the refuting execution\n")
+	} else {
+		rep.WriteString("NOT-REPRODUCED\n")
+	}
+	p := note(rep.String())
+	if reproduced {
+		return p, true
+	}
+	return "", false
+}
+
+func tailLines(s string, n int) string {
+	ls := splitLines(s)
+	if len(ls) > n {
+		ls = ls[len(ls)-n:]
+	}
+	return strings.Join(ls, "\n")
 }
 
 func runBounded(spec *PropertySpec, repo, verif, tier, prop, replayDir string) []BoundedResult {
@@ -67,7 +947,7 @@ func runOverlayTest(repo, verif, pkgDir, src, run string, timeoutS int) (bool, i
 	// tests print "WKV-CASES <n>"
 	for _, l := range splitLines(string(out)) {
 		var n int
-		if _, e := fmt.Sscanf(trimSpace(l), "WKV-CASES %d", &n); e == nil {
+		if _, e := fmt.Sscanf(strings.TrimSpace(l), "WKV-CASES %d", &n); e == nil {
 			cases += n
 		}
 	}
@@ -75,20 +955,40 @@ func runOverlayTest(repo, verif, pkgDir, src, run string, timeoutS int) (bool, i
 }
 
 func splitLines(s string) []string {
-	var out []string
-	cur := ""
-	for _, r := range s {
-		if r == '\n' {
-			out = append(out, cur)
-			cur = ""
-		} else {
-			cur += string(r)
-		}
-	}
-	if cur != "" {
-		out = append(out, cur)
-	}
-	return out
+	return strings.Split(strings.ReplaceAll(s, "\r\n", "\n"), "\n")
 }
 
-func trimSpace(s string) string { return strings.TrimSpace(s) }
+// cmdReplay re-runs a generated replay test file.
+func cmdReplay(args []string) int {
+	var path, repo, verif string
+	repo, verif = "/repo", "/verif"
+	for i := 0; i < len(args); i++ {
+		switch args[i] {
+		case "--path":
+			i++
+			path = args[i]
+		case "--repo":
+			i++
+			repo = args[i]
+		case "--property":
+			i++
+		}
+	}
+	if strings.HasSuffix(path, ".txt") {
+		path = strings.TrimSuffix(path, ".txt") + ".go"
+	}
+	data, err := os.ReadFile(path)
+	if err != nil {
+		fmt.Fprintln(os.Stderr, "no replay test for this violation (the replay file names the failed obligation and carries the solver output):", err)
+		return 2
+	}
+	pkgDir := ""
+	for _, l := range strings.Split(string(data), "\n") {
+		if strings.HasPrefix(l, "// package dir: ") {
+			pkgDir = strings.TrimPrefix(l, "// package dir: ")
+		}
+	}
+	_, _, log := runOverlayTest(repo, verif, pkgDir, path, "TestWkvReplay", 60)
+	fmt.Println(log)
+	return 0
+}
